@@ -66,6 +66,7 @@ type Obligation struct {
 	Critical      []Critical             `json:"critical"`
 	Clock      string                    `json:"clock"`
 	GhostFS    bool                      `json:"ghost_fs"`
+	FeasTimeoutMs int                    `json:"solver_timeout_ms"`
 	CrashFiles []string                  `json:"crash_files"`
 	Expect     string                    `json:"expect"` // "violated": a sensitivity twin that MUST fail
 	guards     map[string]*Guard
@@ -279,6 +280,12 @@ func runItem(l *Loaded, cfg *Config, it workItem, spawn func([]int), sol *Solver
 	t0 := time.Now()
 	res := newObResult(it.ob.Name)
 	c := NewCtx()
+	sol.timeout = cfg.FeasTimeoutMs
+	if it.ob.FeasTimeoutMs > 0 {
+		// obligations whose queries suit another solver better (e.g. 16-bit linear arithmetic: cvc5 bv-as-int)
+		// give the incremental z3 little time; its "unknown" goes to the portfolio
+		sol.timeout = it.ob.FeasTimeoutMs
+	}
 	sol.Reset()
 	e := &Exec{
 		c: c, prog: l.prog, sol: sol, ob: it.ob, zeroCache: map[types.Type]Value{}, globals: w.globals, wk: w,
